@@ -208,6 +208,16 @@ pub struct Config {
     /// re-applied and every subsumed state re-merged into a clone of the touched replica
     #[serde(default)]
     pub redundancy_every: bool,
+    /// actor identifier of each node (empty = node index): identifiers far apart and in either order
+    #[serde(default)]
+    pub actor_ids: Vec<u8>,
+    /// unusual inputs: huge counter steps, indices far beyond the end, empty / repeated argument lists
+    #[serde(default)]
+    pub odd_inputs: bool,
+    /// sequences: each replica types a long run of elements at an advancing cursor, so that the gap between
+    /// two neighbours is halved dozens of times (identifier rationals with huge denominators)
+    #[serde(default)]
+    pub long_typing: bool,
 }
 
 impl Config {
